@@ -60,5 +60,6 @@ def run(ctx):
             # the `_unchecked` forms of the comparison API are their `_internal` bodies (a re-implemented twin is a second, unchecked implementation)
             ctx.guard("C10", "twins", lambda: features.twins(ctx, prog, scope='internals::compare::|position_array::', floor=8))
         ctx.guard("C10", "summaries", lambda: summary.check(ctx, prog, 'block_hash::(Index|Numeric)Windows|block_hash_[12]_(numeric_|index_)?windows|FuzzyHashCompareTarget::(is_comparison_candidate|compare)\\w*$', floor=4))
+        ctx.guard("C10", "path summaries", lambda: summary.check_paths(ctx, prog, 'block_hash::(Index|Numeric)Windows|block_hash_[12]_(numeric_|index_)?windows|FuzzyHashCompareTarget::(is_comparison_candidate|compare)\\w*$', floor=16))
         ctx.guard("C10", "traits", lambda: vis.trait_census(ctx, prog, scope='block_hash::(Index|Numeric)Windows'))
     return ctx.finish(EXPL, ["relation beliefs are read from configurations with debug assertions on"])
